@@ -459,6 +459,12 @@ class Term:
         if inst is None:
             inst = Inst(**kwargs)
 
+        # Terms to be substituted are placed under the binders of self without
+        # adjusting indices, so they cannot contain loose bound variables.
+        for t in list(inst.values()) + list(inst.var_inst.values()):
+            if t.is_open():
+                raise TermException("subst: open term %s in instantiation" % repr(t))
+
         # First match type variables.
         svars = self.get_svars()
         for v in svars:
